@@ -411,12 +411,50 @@ def save_summary(pkg: Package, fi: FunctionInfo) -> Optional[Tuple[str, str]]:
     return None
 
 
+def _exclusive(a: ast.AST, b: ast.AST, par, root) -> bool:
+    """the two nodes sit in different arms of one if / else (or try / except): they never run in the same call"""
+    anc_a = [a] + list(_ancestors(a, par, root))
+    anc_b = [b] + list(_ancestors(b, par, root))
+    for x in anc_a:
+        if isinstance(x, ast.If) and x in anc_b:
+            in_body = lambda n_: any(n_ is m for st in x.body for m in ast.walk(st))      # noqa: E731
+            in_else = lambda n_: any(n_ is m for st in x.orelse for m in ast.walk(st))    # noqa: E731
+            if (in_body(a) and in_else(b)) or (in_else(a) and in_body(b)):
+                return True
+    return False
+
+
 def savefwd_pass(run: Run, pkg: Package, funcs: List[FunctionInfo]) -> int:
     n = 0
     for fi in funcs:
         params = set(fi.params)
         par = parents_map(fi.node)
         body = list(ast.walk(fi.node))
+        multi: Dict[str, list] = {}
+        n += _savefwd_calls(run, pkg, fi, params, par, body, multi)
+        # the same requested file handed to two saving callees that run in the same call: the later one overwrites the earlier
+        for fname, sites in multi.items():
+            sites = sorted(sites, key=lambda cs: (cs[0].lineno, cs[0].col_offset))
+            for i in range(len(sites)):
+                for j in range(i + 1, len(sites)):
+                    (c1, g1), (c2, g2) = sites[i], sites[j]
+                    if _exclusive(c1, c2, par, fi.node) or enclosing_loops(c1, par, fi.node) or enclosing_loops(c2, par, fi.node):
+                        continue
+                    run.ob("R-SAVE-FWD", short(fi.qual), f"{fname}:twice@{norm_stmt(_stmt_of(c2, par))[:50]}", False,
+                           "a requested output file holds what the routine returns",
+                           f"`{fname}` is handed to {short(g1.qual)} (line {c1.lineno}) and again to {short(g2.qual)} (line {c2.lineno}) on the same path; both write their own result there",
+                           witness=f"one call with {fname} given: the second write replaces the first, the file holds only the result of the call at line {c2.lineno}, "
+                                   f"not what {fi.name} returns from both", loc=fi.loc(c2), sound=True)
+                    break
+                else:
+                    continue
+                break
+    return n
+
+
+def _savefwd_calls(run: Run, pkg: Package, fi: FunctionInfo, params, par, body, multi) -> int:
+    n = 0
+    if True:
         for call in body:
             if not isinstance(call, ast.Call):
                 continue
@@ -435,10 +473,20 @@ def savefwd_pass(run: Run, pkg: Package, funcs: List[FunctionInfo]) -> int:
             if arg is None and fparam in cps and cps.index(fparam) < len(call.args):
                 arg = call.args[cps.index(fparam)]
             if arg is None:
+                # f(..., **options) with `options` a local dictionary literal that carries the file name
+                for k in call.keywords:
+                    if k.arg is None and isinstance(k.value, ast.Name):
+                        d = _local_def(fi, k.value.id)
+                        if isinstance(d, ast.Dict):
+                            for kk, vv in zip(d.keys, d.values):
+                                if isinstance(kk, ast.Constant) and kk.value == fparam:
+                                    arg = vv
+            if arg is None:
                 continue
             n += 1
             if not (isinstance(arg, ast.Name) and arg.id in params):
                 continue            # a constant, or a name DERIVED from the caller's (outputfile + ".QIJ_cg.npy"): an auxiliary file by design
+            multi.setdefault(arg.id, []).append((call, callee))
             stmt = _stmt_of(call, par)
             why = None
             loc_node = call
@@ -946,6 +994,119 @@ def latebind_pass(run: Run, pkg: Package, funcs: List[FunctionInfo], modules=())
 
 
 # --------------------------------------------------------------------------------------------------------------------
+def csvheader_pass(run: Run, pkg: Package, funcs: List[FunctionInfo]) -> int:
+    """R-CSVHEADER: pandas `DataFrame.to_csv(header=<list>)` writes the list as ALIASES of the columns in their existing order - it
+    does not select or reorder.  When the table was created with a literal column list, both lists are evaluated (constant
+    expressions of the extracted terms only) and compared: a different order puts every value under another column's name in
+    the file while the returned table is untouched.  A header that cannot be evaluated is undecided."""
+    from ..vg import Interp, strip_alloc
+    from ..concrete import ev as cev
+    n = 0
+    for fi in funcs:
+        if not any(isinstance(c, ast.Call) and isinstance(c.func, ast.Attribute) and c.func.attr == "to_csv" and any(k.arg == "header" for k in c.keywords) for c in ast.walk(fi.node)):
+            continue
+        try:
+            it = Interp(pkg, fi)
+        except Exception:  # noqa
+            continue
+        for e in it.events:
+            if not (e.kind == "call" and e.data["call"][1] == ".to_csv"):
+                continue
+            c = e.data["call"]
+            kws = dict(c[3])
+            if "header" not in kws:
+                continue
+            h = kws["header"]
+            if h[0] == "const" and isinstance(h[1], bool):
+                continue
+            n += 1
+            recv = strip_alloc(c[2][0]) if c[2] else None
+            cols = None
+            if recv is not None and recv[0] == "call" and recv[1] == "pandas.DataFrame":
+                cols = dict(recv[3]).get("columns")
+            verdict, detail, wit = None, "header aliases or column list not constant", None
+            try:
+                hv = list(cev(h, {}))
+                cv = list(cev(cols, {})) if cols is not None else None
+                if cv is not None:
+                    if hv == cv:
+                        verdict, detail = True, f"aliases equal the column names {cv[:4]}..."
+                    elif sorted(map(str, hv)) == sorted(map(str, cv)):
+                        k = next(i for i, (a_, b_) in enumerate(zip(hv, cv)) if a_ != b_)
+                        verdict = False
+                        detail = f"columns are {cv}, the header aliases are {hv}"
+                        wit = (f"to_csv(header=...) relabels, it does not reorder: file column {k} is labelled '{hv[k]}' but holds the values of '{cv[k]}' "
+                               f"({sum(a_ != b_ for a_, b_ in zip(hv, cv))} of {len(cv)} columns mislabelled); the returned table keeps the right names")
+            except Exception:  # noqa
+                pass
+            node = it.node_of(e) if hasattr(it, "node_of") else None
+            run.ob("R-CSVHEADER", short(fi.qual), f"header@{show_short(h)}", verdict, "the file's column labels are the names of the columns whose values they head",
+                   detail, witness=wit, loc=fi.loc(node) if node is not None else fi.loc(), sound=True)
+    return n
+
+
+def show_short(t) -> str:
+    from ..vg import show
+    return show(t)[:50]
+
+
+# --------------------------------------------------------------------------------------------------------------------
+GLOBAL_SETTERS = {"seterr": "numpy floating-point error handling", "seterrcall": "numpy floating-point error callback", "chdir": "the working directory",
+                  "simplefilter": "the warnings filter", "filterwarnings": "the warnings filter", "setrecursionlimit": "the recursion limit"}
+
+
+def globalstate_pass(run: Run, pkg: Package, funcs: List[FunctionInfo]) -> int:
+    """R-GLOBALSTATE: a routine that changes process-wide state which decides what LATER computations return or raise
+    (np.seterr, warnings turned into errors, os.chdir ...) restores it on every path that leaves the routine.  The scoped forms
+    (`with np.errstate(...)`, `with warnings.catch_warnings()`) are the correct idiom and are not matched.  Reported: a setter
+    with no later restoring call of the same function, or a `return` between the setter and the restore that is not covered by
+    a try/finally.  (np.set_printoptions changes how arrays print, not what routines return, and is not in the table.)"""
+    n = 0
+    for fi in funcs:
+        par = None
+        calls = [c for c in ast.walk(fi.node) if isinstance(c, ast.Call) and isinstance(c.func, ast.Attribute) and c.func.attr in GLOBAL_SETTERS
+                 and isinstance(c.func.value, ast.Name) and c.func.value.id in ("np", "numpy", "os", "warnings", "sys")]
+        if not calls:
+            continue
+        par = parents_map(fi.node)
+        by_fn: Dict[str, List[ast.Call]] = {}
+        for c in calls:
+            # inside `with warnings.catch_warnings():` the filter change is scoped
+            if c.func.attr in ("simplefilter", "filterwarnings") and any(isinstance(a, ast.With) and "catch_warnings" in ast.unparse(a.items[0].context_expr) for a in _ancestors(c, par, fi.node)):
+                continue
+            if c.func.attr in ("simplefilter", "filterwarnings") and not (c.args and isinstance(c.args[0], ast.Constant) and c.args[0].value == "error"):
+                continue          # only "error" changes what later code returns (it raises instead)
+            by_fn.setdefault(c.func.attr, []).append(c)
+        for name, cs in by_fn.items():
+            n += 1
+            cs = sorted(cs, key=lambda c: (c.lineno, c.col_offset))
+            first, last = cs[0], cs[-1]
+            what = GLOBAL_SETTERS[name]
+            if len(cs) == 1:
+                run.ob("R-GLOBALSTATE", short(fi.qual), f"{name}@{norm_stmt(_stmt_of(first, par))[:60]}", False,
+                       "process-wide state that decides what later computations return is restored before the routine returns",
+                       f"{ast.unparse(first)[:80]} changes {what} for the whole process and is never undone in this routine",
+                       witness="run an analysis whose normal result contains a NaN / division by zero, call this routine, run the same analysis again with the same inputs: "
+                               "it now raises (or reads / writes relative paths elsewhere) instead of repeating its result", loc=fi.loc(first), sound=True)
+                continue
+            in_finally = any(isinstance(a, ast.Try) and any(last in ast.walk(x) for x in a.finalbody) and any(first in ast.walk(x) for x in a.body + [a])
+                             for a in _ancestors(last, par, fi.node)) or \
+                any(isinstance(t, ast.Try) and any(last in ast.walk(x) for x in t.finalbody) and t.lineno >= first.lineno for t in ast.walk(fi.node))
+            leaks = [r for r in ast.walk(fi.node) if isinstance(r, (ast.Return, ast.Raise)) and first.lineno < r.lineno < last.lineno
+                     and not any(isinstance(a, ast.ExceptHandler) for a in _ancestors(r, par, fi.node))]
+            if leaks and not in_finally:
+                r = leaks[0]
+                run.ob("R-GLOBALSTATE", short(fi.qual), f"{name}@{norm_stmt(r)[:60]}", False,
+                       "process-wide state that decides what later computations return is restored on every path that leaves the routine",
+                       f"{ast.unparse(first)[:60]} (line {first.lineno}) is undone by {ast.unparse(last)[:50]} (line {last.lineno}), but `{norm_stmt(r)[:50]}` at line {r.lineno} leaves in between",
+                       witness=f"the call that takes the path through line {r.lineno} leaves {what} changed: a later analysis with the same inputs raises instead of repeating its result",
+                       loc=fi.loc(r), sound=True)
+            else:
+                run.ob("R-GLOBALSTATE", short(fi.qual), f"{name}@restore", True, "process-wide state is restored on every path", f"{ast.unparse(last)[:60]}", loc=fi.loc(last))
+    return n
+
+
+# --------------------------------------------------------------------------------------------------------------------
 def savepath_pass(run: Run, pkg: Package, funcs: List[FunctionInfo]) -> int:
     """R-SAVE-PATH: a routine that writes its result to a file named by one of its parameters does so on every path that returns
     a result.  A `return <value>` that precedes the first save site (an early exit / fast path) hands back a value without
@@ -1203,6 +1364,12 @@ def state_pass(run: Run, pkg: Package, everything: bool = False, mask_forward_on
         "stored_fields": statepath_pass(run, pkg, funcs),
         "saving_routines": savepath_pass(run, pkg, funcs),
     }
+    if everything:
+        # what a requested file holds beside the returned values, and what a call leaves behind for OTHER routines: only C18 speaks of these
+        counts.update({
+            "csv_header_aliases": csvheader_pass(run, pkg, funcs),
+            "process_state_setters": globalstate_pass(run, pkg, funcs),
+        })
     if not everything:
         # ... and rules about the value a single call computes: they speak for the property that anchors the function only
         counts.update({
